@@ -91,8 +91,9 @@ def signature(b):
     pf = prog_fields(b["prog"])
     kind = b["kind"] if b["kind"] not in ("?", "") else pf["kind"]
     during = b.get("during", "")
+    site = b.get("site", "")
     return {"kind": kind, "origin": b["origin"] if b["origin"] not in ("?", "") else pf["origin"], "ev": b["ev"], "why": b["why"],
-            "site": b.get("site", ""), "cls": b.get("cls", ""), "op": during.split(" ")[0] if during else "", "p": b["p"],
+            "site": site, "site_fn": site.split("@")[0], "cls": b.get("cls", ""), "op": during.split(" ")[0] if during else "", "p": b["p"],
             "set": pf["set"], "section": pf["section"], "par": pf["par"]}
 
 
@@ -404,6 +405,19 @@ def c07_growth_programs(rng, thorough):
     }
     if thorough:
         shapes["rand300"] = G.rnd_set(rng, 300, 1, 40)
+    # inputs larger than the initial reservation (MEMALLOC * bucketsize = 65536 bytes for bucket size 2,
+    # 32768 for HASHHF): the buffers are reallocated with the library's own constant
+    big = {"big80k": G.rnd_set(rng, 5200, 4, 24, b"", b"abcdefghijklmnop"),
+           "big_short": G.rnd_set(rng, 9000, 1, 3, b"", bytes(range(40, 120))) + [b"zz" + bytes([c]) * 70000 for c in (65,)]}
+    big["big_short"] = sorted(big["big_short"])
+    if thorough:
+        big["big200k"] = G.rnd_set(rng, 9000, 8, 36, b"", b"abcdefgh")
+    for kind in G.FC + ["HASHHF"]:
+        for sname, S in big.items():
+            p = G.Prog("C07|%s|b2|%s|growthbig|built" % (kind, sname))
+            p.lines = [G.build_line(1, kind, G.P(bucket=2, overhead=25), S)] + G.sec_members(1, S, rng, 6) + ["S 1 1", "CAT 1 1",
+                       G.load_line("LK", kind, 1, 2, 1)] + G.sec_members(2, S, rng, 4) + ["D 2", "D 1"]
+            progs.append(p)
     for kind in G.FC + ["HASHHF"]:
         for sname, S in shapes.items():
             for ma in (1, 2, 16, 64) if thorough else (1, 16):
@@ -440,6 +454,23 @@ def design_run(pid, tier):
     r = vlib.tlc("CSDMC", cfg, workers=8, timeout=3000, java_opts=["-Xmx12g"])
     if r.rc != 0:
         raise RuntimeError("CSD small-scope model check failed for %s: rc=%s violated=%s" % (pid, r.rc, r.violated))
+    if pid in ("C04", "C07"):
+        # mechanism model: front-coding layout + locatePrefix transcribed, every read bounds-checked
+        n = 4 if tier == "quick" else 5
+        body = "SPECIFICATION Spec\nCONSTANTS Sigma = {97, 98}\nMaxLen = 3\nMaxN = %d\nBuckets = {2, 3, 4}\nFixed = %s\nINVARIANT Inv\nCHECK_DEADLOCK FALSE\n"
+        c1 = os.path.join(vlib.CACHE, "cfg", "fc_%s_%s.cfg" % (pid, tier))
+        open(c1, "w").write(body % (n, "TRUE"))
+        f = vlib.tlc("FrontCoding", c1, workers=8, timeout=3000, java_opts=["-Xmx12g"])
+        if f.rc != 0:
+            raise RuntimeError("FrontCoding.tla (code as fixed) violates RangeOK/NoOOB: rc=%s violated=%s" % (f.rc, f.violated))
+        c2 = os.path.join(vlib.CACHE, "cfg", "fc_%s_%s_orig.cfg" % (pid, tier))
+        open(c2, "w").write(body % (2, "FALSE"))
+        g = vlib.tlc("FrontCoding", c2, workers=4, timeout=600)
+        if g.violated != "Inv":
+            raise RuntimeError("vacuity: FrontCoding.tla no longer flags the original searchPrefix slip")
+        r["distinct"] = (r.distinct or 0) + (f.distinct or 0)
+        r["generated"] = (r.generated or 0) + (f.generated or 0)
+        r["frontcoding_states"] = f.distinct
     return r
 
 
@@ -477,6 +508,8 @@ def run(pid, tier):
     if pid == "C12":
         rel = c12_disagreements(bad, progs)
     resolve_crash_sites(rel, work)
+    if pid == "C07":
+        rel, extra["memalloc_override_only"] = confirm_memalloc(rel, work)
     seen = {}
     for b in rel:
         sig = signature(b)
@@ -567,6 +600,42 @@ def resolve_crash_sites(rel, work):
             b["cls"], b["site"] = c, st
 
 
+def confirm_memalloc(rel, work):
+    """DESIGN 5/C07: a fault seen only under the MEMALLOC override (the LIBCSD_VERIF hook) is not evidence.
+    Each faulting growth program is re-run with the override removed; the rejection is kept only if the
+    unmodified constant reproduces a fault at the same call site."""
+    sus = {}
+    for b in rel:
+        if prog_fields(b["prog"])["section"] == "growth" and "_ma" in prog_fields(b["prog"])["par"] and "_progfile" in b:
+            sus.setdefault(b["prog"], b)
+    if not sus:
+        return rel, 0
+    exe = vlib.build_harness("driver", DRIVER_SRCS, "asan")
+    env = dict(os.environ, ASAN_OPTIONS="halt_on_error=0:detect_leaks=0:allocator_may_return_null=1")
+    pf = os.path.join(work, "confirm_ma.prog")
+    with open(pf, "w") as fh:
+        for prog, b in sus.items():
+            txt = extract_program(b["_progfile"], prog)
+            fh.write("".join(l for l in txt.splitlines(True) if not l.startswith("MA ")))
+    tr = os.path.join(work, "confirm_ma.ndjson")
+    run_driver(exe, pf, tr, env, 20)
+    still, cur = {}, None
+    for line in open(tr):
+        if line.startswith('{"e":"Reset"'):
+            cur = json.loads(line)["prog"]
+        elif line.startswith('{"e":"memerr"'):
+            still.setdefault(cur, set()).add(json.loads(line)["site"].split("@")[0])
+        elif line.startswith(('{"e":"crash"', '{"e":"timeout"')):
+            still.setdefault(cur, set()).add("*")
+    def reproduced(b):
+        if b["prog"] not in sus:
+            return True
+        sites = still.get(b["prog"], set())
+        return (b.get("site", "").split("@")[0] in sites) if b["ev"] == "memerr" else bool(sites)
+    kept = [b for b in rel if reproduced(b)]
+    return kept, len(rel) - len(kept)
+
+
 def cross_process_digests(work, pid):
     """C08: the same (kind, parameters, input) saved in separately started processes (with and without
     malloc perturbation) must give the same image digest.  CSDTrace learns digests per TLC run, i.e.
@@ -617,7 +686,8 @@ def c12_disagreements(bad, progs):
             for par, b in pars.items():
                 b = dict(b)
                 b["p"] = "C12"
-                b["why"] = "parameter vectors disagree (%d of %d fail): %s" % (len(pars), len(grid[key]), b["why"])
+                b["detail"] = "%d of %d parameter vectors fail" % (len(pars), len(grid[key]))
+                b["why"] = "parameter vectors disagree: " + b["why"]
                 out.append(b)
     return out
 
